@@ -25,7 +25,7 @@ LOADS = [1, 7, [2, 3], 1000]
 
 
 def budget_s(tier):
-    return 300 if tier == "quick" else 3600
+    return 300 if tier == "quick" else 7200
 
 
 LEVELS_QUICK = [
@@ -43,10 +43,10 @@ LEVELS_THOROUGH = [
     (2, 3, KINDS_P, ("real", "cplx", "dec"), ("plain", "odd")),
     (3, 2, KINDS_P, ("real", "cplx", "dec"), ("plain", "odd")),
     (3, 3, KINDS_P, ("real", "cplx"), ("plain", "odd")),
-    (3, 4, KINDS_P, ("cplx",), ("plain", "odd")),
+    (3, 4, ("Z", "V", "I", "LV", "open"), ("cplx",), ("plain", "odd")),
     (4, 3, KINDS_P, ("real",), ("plain", "odd")),
-    (4, 4, ("Z", "V", "I", "LV", "open"), ("real",), ("plain", "odd")),
-    (4, 5, ("Z", "V", "I"), ("cplx",), ("odd",)),
+    (4, 4, ("Z", "V", "I"), ("real",), ("plain", "odd")),
+    (4, 5, ("Z", "V"), ("cplx",), ("odd",)),
 ]
 
 
